@@ -14,9 +14,7 @@ theorem ident_pattern_pin :
     identPatternSrc = "^\\/(?P<MANID>[A-Z][A-Z][a-zA-Z])(?P<BAUDID>\\d)((\\\\\\w)*)(?P<ID>[ -~]{1,16})?(\\r\\n)?$" := by
   decide
 
-theorem constant_pins : crc16Poly = 0xA001 ∧ p1Start = 47 ∧ p1End = 33 ∧ p1Lf = 10 ∧
-    p1IsValidLiterals = [128] ∧
-    p1ExpectedChecksumLiterals = [1, 1, 16] := by decide
+theorem constant_pins : crc16Poly = 0xA001 ∧ p1Start = 47 ∧ p1End = 33 ∧ p1Lf = 10 := by decide
 
 /-- the CRC loop of the source is CRC-16/ARC, for every byte string -/
 theorem crc_is_arc (bs : List Nat) : crc16 bs = crc16Arc bs :=
